@@ -40,7 +40,12 @@ def obligations(tier):
                   bounds="events at 11 representative instants up to the platform timedelta maximum"))
     obs.append(Ob("C18.render.chart", "CH", "harness.h_c18", "render_chart", 900, funcs=("chartparse.chart.Chart.__str__", "chartparse.util.DictReprTruncatedSequencesMixin.__repr__",
                                                                                             "chartparse.instrument.InstrumentTrack.__str__"),
-                  bounds="charts with 0/1/2 tracks and 0/1/2+ events per list (truncated-sequence repr branches), every event class"))
+                  bounds="charts with 0/1/2/4 tracks (tracks without notes included) and 0/1/2+ events per list (truncated-sequence repr branches), every event class"))
+    obs.append(Ob("C18.sync_real_lines.N2", "CH", "harness.h_extra", "sync_real_lines", 1500, {"VF_NSYNC": 2},
+                  funcs=("chartparse.sync.SyncTrack.from_chart_lines", "chartparse.sync.BPMEvents.timestamp_at_tick", "chartparse.tick.seconds_from_ticks_at_bpm (real arithmetic)"),
+                  bounds="real recognisers and real float arithmetic on every sequence of 2 lines from 12 shapes (zero tempos first / last / only, duplicates, garbage), resolution in {192, 0, -192}: only ValueError"))
+    obs.append(Ob("C18.sync_real_lines.N3.firstTS", "CH", "harness.h_extra", "sync_real_lines", 1500, {"VF_NSYNC": 3, "VF_K0": 6},
+                  funcs=("chartparse.sync.SyncTrack.from_chart_lines",), bounds="a tick-0 signature line followed by every pair of lines from the 12 shapes"))
     obs.append(Ob("C18.route.missing", "CH", "harness.h_chart", "route", 900, {"VF_NSEC": 1, "VF_NPARTS": 48, "VF_PART": 47},
                   funcs=("chartparse.chart.Chart.from_file",), bounds="missing required sections -> ValueError only"))
     for kind in range(9):
